@@ -27,6 +27,35 @@ def key_raiser(msg='missing'):
   raise KeyError(msg)
 
 
+class LockWaitTimeout(TimeoutError):
+  """An application-level time-out (a subclass of the builtin)."""
+
+
+class AppError(Exception):
+  """An application exception with two arguments."""
+
+
+EXC_KINDS = {
+    'TimeoutError': TimeoutError, 'LockWaitTimeout': LockWaitTimeout,
+    'RuntimeError': RuntimeError, 'StopIteration': StopIteration,
+    'AppError': AppError, 'LookupError': LookupError, 'OSError': OSError,
+    'AssertionError': AssertionError, 'NotImplementedError': NotImplementedError,
+}
+
+
+def raise_kind(kind, *args):
+  """Raises the exception class named `kind` (the classes a transport or a
+  client might treat specially: time-outs, StopIteration, RuntimeError, ...)."""
+  raise EXC_KINDS[kind](*args)
+
+
+class Busy:
+  """An object whose method raises a time-out (remote object chains)."""
+
+  def read(self, kind='TimeoutError'):
+    raise EXC_KINDS[kind]('busy')
+
+
 class Box:
   """A class with attributes, items and __call__."""
 
